@@ -74,6 +74,9 @@ SwitchMuts(i, cls, o) ==
                \o [k \in 1..Len(others) |->
                      [obj |-> Put(o, i.field, CaseValue(i.cases[others[k]], i.ftype)),
                       what |-> i.field \o " moved to case " \o i.cases[others[k]].cname \o " while " \o dname \o " stays " \o c.cname, stray |-> FALSE]]
+               \* a value that no listed case matches falls to the default case: its data (if any) is of another kind, or must be None
+               \o If((\E y \in 1..Len(i.cases) : i.cases[y].default) /\ Selects(i.cases, i.ftype, <<0, 200>>) # sel /\ ~i.cases[sel].default,
+                     <<[obj |-> Put(o, i.field, <<0, 200>>), what |-> i.field \o " = 200 falls to the default case while " \o dname \o " stays " \o c.cname, stray |-> FALSE]>>)
                \o If(~\E y \in 1..Len(i.cases) : i.cases[y].default,
                      <<[obj |-> Put(o, i.field, <<0, 200>>), what |-> i.field \o " = 200 selects no case while " \o dname \o " stays", stray |-> TRUE]>>)
                \o Lift(Mutations(c.body, CaseClass(cls, i, c), d), dname \o ".", W)
